@@ -822,8 +822,8 @@ func c06Rebuild(r *core.Run, rec map[*ssa.Function]bool, idx []*ssa.Function) {
 				return
 			}
 			callee := core.StaticCallee(c)
-			if callee != nil && callee.Parent() == fn && firstCommit == nil {
-				// closure that commits
+			if callee != nil && p.IsProdFunc(callee) && (callee.Parent() == fn || callee.Pkg == fn.Pkg) && firstCommit == nil {
+				// a closure or helper of the store that commits the batch
 				if commitOf(callee) != nil {
 					firstCommit = in
 				}
